@@ -281,6 +281,17 @@ fn balance_before_entry(
     balance
 }
 
+/// Verification-only access to the private reverse walk (calls the original; see /verif).
+#[cfg(grevm_verif)]
+pub(crate) fn verif_balance_before_entry(
+    entries: &[JournalEntry],
+    entry_index: usize,
+    address: Address,
+    final_balance: U256,
+) -> U256 {
+    balance_before_entry(entries, entry_index, address, final_balance)
+}
+
 #[cfg(test)]
 mod tests {
     use super::*;
